@@ -487,9 +487,33 @@ def coq_example_cases():
         (b"m", {"occ": [[b"a", b"", b"b", b"", b"a", b"b", b""], [b"\xff", b"\xc3"], [b"\xe9"]],
                 "idx": [2, 3, 4, 5, 6, 7, 8, 10, 11, 13]}),
         (b"f", {"occ": [[b"g\xe9n"]], "idx": [14]})])
+    # UnparseXExamples.v (C02_unparse_x_nonvacuous, C02_terminator_nonvacuous): require_equals, terminator, hyphen /
+    # negative-number values
+    xrun = {"name": b"run", "aliases": [], "args": [arg(b"k", short="k", long=b"key", action="set", flags={"reqeq"})],
+            "groups": [], "subs": [], "settings": []}
+    xc = {"name": b"p", "args": [
+        arg(b"v", short="v", action="count"),
+        arg(b"r", short="r", long=b"req", action="set", flags={"reqeq"}),
+        arg(b"t", short="t", long=b"term", action="append", num=(1, 3), term=b";"),
+        arg(b"y", short="y", long=b"hy", action="set", num=(2, 2), flags={"hyphen"}),
+        arg(b"n", short="n", long=b"num", action="set", flags={"negnum"}),
+        arg(b"f")], "groups": [], "subs": [xrun], "settings": ["args_override_self"], "aliases": []}
+    toks6 = [b"--req=A", b"-vr=B", b"--term", b"X", b"Y", b"--hy", b"-x", b"--", b"--num", b"-5", b"F", b"-t", b"Z",
+             b"--req==", b"-y", b"--num", b"--term", b"run", b"--key=K"]
+    exp6 = [(collections.OrderedDict([
+        (b"v", {"occ": [[b"1"]], "idx": [3]}), (b"r", {"occ": [[b"="]], "idx": [18]}),
+        (b"t", {"occ": [[b"X", b"Y"], [b"Z"]], "idx": [7, 8, 16]}),
+        (b"y", {"occ": [[b"--num", b"--term"]], "idx": [20, 21]}), (b"n", {"occ": [[b"-5"]], "idx": [13]}),
+        (b"f", {"occ": [[b"F"]], "idx": [14]})]), b"run"),
+        (collections.OrderedDict([(b"k", {"occ": [[b"K"]], "idx": [2]})]), None)]
+    xc1 = dict(xc, subs=[])
+    toks7 = [b"--term", b"X", b";", b"F", b"-v"]
+    exp7 = collections.OrderedDict([(b"t", {"occ": [[b"X"]], "idx": [2]}), (b"f", {"occ": [[b"F"]], "idx": [3]}),
+                                    (b"v", {"occ": [[b"1"]], "idx": [4]})])
     out = []
     for c, toks, lv in ((one, toks1, [(exp1, None)]), (two, toks2, exp2), (one, toks3, [(exp3, None)]),
-                        (order, toks4, [(exp4, None)]), (osc, toks5, [(exp5, None)])):
+                        (order, toks4, [(exp4, None)]), (osc, toks5, [(exp5, None)]), (xc, toks6, exp6),
+                        (xc1, toks7, [(exp7, None)])):
         argv = [b"p"] + toks
         base = gen_cmd.cmd_sx(c)
         body = base[:-1] + " (x-expect %s %s))" % (guard(base, argv), expect_sx(lv))
